@@ -108,8 +108,9 @@ static void imm_tok(struct instr *instr_buffer, char *imme) {
     base = RADIX_16;
   // smart mode: only a hexadecimal literal written with all 16 digits keeps
   // the 64-bit form, any other spelling is handled like in nasm mode
+  // (a leading '-' is not one of the 16 digits)
   if ((instr_buffer->assembly_opt & SMART_MOV_IMM) &&
-      !(hex && imme_str_len >= STR_HEX_64))
+      !(hex && imme_str_len - (imme[0] == '-') >= STR_HEX_64))
     instr_buffer->assembly_opt |= NASM_MOV_IMM;
   // convert string to unsigned long for immediate representation
   instr_buffer->cons = strtoul(imme, NULL, base);
